@@ -83,3 +83,43 @@ package proc
 //@   modifies all
 //@   ensures @waits-for-the-serve-loop waitedfor(l.done)
 //@   callpre Close @closes-the-registered-connections-after-clearing-the-registry l.conns == nil
+
+// ---- C08: a processor is built by the builder of the configured protocol, for the requested service ----------
+
+//@ func getBuilder
+//@   prop C08
+//@   modifies nothing
+//@   ensures @registry-lookup result1 == has(builderRegistry, p) && (result1 ==> result0 == builderRegistry[p])
+
+//@ func New
+//@   prop C08
+//@   requires cfg != nil
+//@   requires @registered-builders-are-present forall k protocol.Protocol :: has(builderRegistry, k) ==> builderRegistry[k] != nil
+//@   modifies all
+//@   callpre getBuilder @the-builder-of-the-configured-protocol arg0 == cfg.Protocol
+//@   callpre Builder).Build @built-for-the-requested-service-with-the-given-configuration-and-hosts arg1.Name == name && arg1.Cfg == cfg && sameslice(arg1.Hosts, hosts)
+//@   ensures @no-builder-no-processor !old(has(builderRegistry, cfg.Protocol)) ==> p == nil && err != nil
+
+//@ func (*wrappedProc).OnSvcConfigUpdate
+//@   prop C08
+//@   requires w != nil
+//@   modifies all
+//@   callpre OnSvcConfigUpdate @the-update-reaches-the-wrapped-processor arg1 == cfg
+
+// ---- C09/C20: the accept loop hands every accepted connection to exactly one handler goroutine ------------------
+
+//@ func (*listener).serve$1
+//@   prop C09 C20
+//@   assume deref(l) != nil && deref(l).cfg != nil && deref(l).stats != nil && distinctstats(deref(l).stats)
+//@   modifies all, admitted
+//@   callpre handleRawConn @the-accepted-connection-is-the-one-handled arg0 == deref(l) && arg1 == conn
+
+//@ func NewListener
+//@   prop C09
+//@   modifies all
+//@   ensures @a-new-listener-has-an-empty-registry-and-open-latches result1 == nil ==> result0 != nil
+
+//@ func (*listener).serve
+//@   prop C09 C20
+//@   requires l != nil
+//@   modifies all
